@@ -177,24 +177,34 @@ theorem leadPred_id (s : Stmt) (ids : List String) (hc : Lead.isId (classify s) 
     subst hv
     rfl
 
+/-- every row of a `V()` start has a current element -/
+theorem stepV_cur_isSome (g : AGraph) (ids : List String) (t0 t : Traveler) (h : t ∈ stepV g ids t0) :
+    t.cur.isSome = true := by
+  unfold stepV at h
+  split at h <;>
+  · obtain ⟨v, _, rfl⟩ := List.mem_map.1 h
+    rfl
+
+/-- On a row WITH a current element (a row without one is dropped by `hasLabel` whatever the
+    labels are, but kept by `has(eq(_label, ""))`: the two spellings differ exactly there). -/
 theorem leadPred_label (s : Stmt) (ls : List String) (hc : Lead.isLabel (classify s) = true)
-    (hv : labelVals s = some ls) (hne : ls ≠ []) : leadPred numOf s = keepHasLabel ls := by
+    (hv : labelVals s = some ls) (hne : ls ≠ []) (t : Traveler) (hcur : t.cur.isSome = true) :
+    leadPred numOf s t = keepHasLabel ls t := by
   cases s <;> try (simp [classify, Lead.isLabel] at hc; done)
   · rename_i x
     cases x <;> try (simp [classify, Lead.isLabel] at hc; done)
     rename_i k c a
-    have hcur : keyIsCurrent k = true := by
+    have hcur' : keyIsCurrent k = true := by
       by_cases h : keyIsCurrent k = true
       · exact h
       · simp [classify, h, Lead.isLabel] at hc
     have hp : Path.jsonPathOf k = ["label"] := by
-      simp only [classify, hcur, if_true] at hc
+      simp only [classify, hcur', if_true] at hc
       split at hc
       · simp [Lead.isLabel] at hc
       · assumption
       · simp [Lead.isLabel] at hc
-    funext t
-    simp only [leadPred, keepHas, evalHas, keepHasLabel, value_label t k hcur hp]
+    simp only [leadPred, keepHas, evalHas, keepHasLabel, value_label t k hcur' hp, hcur, Bool.true_and]
     exact extract_sound numOf k c a ls (by simpa [labelVals] using hv) hne (curLabel t)
   · simp only [labelVals, Option.some.injEq] at hv
     subst hv
@@ -234,7 +244,9 @@ theorem rewriteLabel_preserves (hg : g.WellFormed) (tail plan : List Stmt) (stf 
           simpa [typeFold, typeStep] using ht
         have hperm : ([Traveler.seed].flatMap (stepIndex g (dedup ls))).Perm
             (([Traveler.seed].flatMap (stepV g [])).filter (leadPred numOf (tail.getD k .unknown))) := by
-          rw [hpred]
+          rw [List.filter_congr (fun t ht => hpred t (by
+            obtain ⟨t0, _, ht0⟩ := List.mem_flatMap.1 ht
+            exact stepV_cur_isSome g [] t0 t ht0))]
           simpa using (stepIndex_filter_perm g hg ls Traveler.seed).symm
         obtain ⟨h1, h2⟩ := erase_perm numOf g Lead.isLabel tail k _ stf _ _ hk hall hperm ht'
         refine ⟨by simpa [typeFold, typeStep] using h2, ?_⟩
